@@ -1,18 +1,11 @@
 #![allow(dead_code, clippy::all)]
-mod account;
-mod backend;
-mod dump;
-mod interp;
-mod model;
-mod ops;
-mod par;
-mod report;
-mod tabops;
-mod types;
-
-use interp::*;
-use ops::*;
-use types::*;
+use serde_json::json;
+use vh::interp::*;
+use vh::ops::*;
+use vh::report::Report;
+use vh::seqx::{self, Profile};
+use vh::types::*;
+use vh::*;
 
 fn smoke() -> i32 {
     let mut it = Interp::create(CFG_SMALL).expect("create");
@@ -41,13 +34,146 @@ fn smoke() -> i32 {
     0
 }
 
+fn run_seq(prop: &str, tier: &str, level: &'static str, profiles: Vec<(Profile, u64)>, rule: &str, assumptions: &[&str]) -> i32 {
+    let mut rep = Report::new(prop, tier, level);
+    rep.cov("rule", json!(rule));
+    rep.cov("exhaustive", json!(true));
+    for a in assumptions {
+        rep.assumptions.push(a.to_string());
+    }
+    let verbose = std::env::var("VH_VERBOSE").is_ok();
+    for (p, cap) in profiles {
+        let name = p.name.clone();
+        let depth = p.depth;
+        let t0 = std::time::Instant::now();
+        match seqx::run_profile(p, cap) {
+            Ok(st) => {
+                if verbose {
+                    eprintln!(
+                        "  {name}: execs={} nodes={} obs={} shapes={} fails={} {:.1}s",
+                        st.executions,
+                        st.states,
+                        st.observations.len(),
+                        st.shapes.len(),
+                        st.failures.len(),
+                        t0.elapsed().as_secs_f64()
+                    );
+                }
+                if st.capped {
+                    rep.cov("exhaustive", json!(false));
+                }
+                seqx::report_stats(&mut rep, &name, &st, depth);
+            }
+            Err(e) => rep.machinery_errors.push(format!("profile {name}: {e}")),
+        }
+    }
+    rep.finish()
+}
+
+fn run_crash(
+    prop: &str,
+    tier: &str,
+    histories: Vec<crashx::History>,
+    bounds: crashx::Bounds,
+    rule: &str,
+    assumptions: &[&str],
+) -> i32 {
+    let mut rep = Report::new(prop, tier, "fault_enumeration");
+    let nh = histories.len();
+    let st = crashx::run_histories(histories, bounds);
+    rep.cov("rule", json!(rule));
+    rep.cov("histories", json!(nh));
+    rep.cov("crash_points", json!(st.crash_points));
+    rep.cov("candidates_generated", json!(st.candidates));
+    rep.cov("evaluations", json!(st.images_judged + st.recovery_images));
+    rep.cov("distinct_images_judged", json!(st.images_judged));
+    rep.cov("distinct_recovery_crash_images_judged", json!(st.recovery_images));
+    rep.cov("torn_write_images", json!(st.torn));
+    rep.cov("distinct_nontrivial", json!(st.images_nontrivial));
+    rep.cov("max_pending_unsynced_ops", json!(st.max_pending));
+    rep.cov("recovered_commit_point_minus_durable_bound", json!(st.matched_cp_hist));
+    rep.cov("samples", json!(st.samples));
+    rep.cov("bounds", json!(format!("{bounds:?}")));
+    rep.cov("caps_hit", json!(st.capped));
+    rep.cov("exhaustive", json!(st.capped.is_empty()));
+    for a in assumptions {
+        rep.assumptions.push(a.to_string());
+    }
+    for (h, e) in &st.record_failures {
+        rep.violation(
+            format!("crashx:history-execution:{}", vh::report::panic_key(&e.chars().take(100).collect::<String>())),
+            format!("history {h} did not execute as the model says: {e}"),
+            json!({"engine": "crashx", "history": h}),
+        );
+    }
+    for (h, c, c2, msg) in &st.failures {
+        rep.violation(
+            format!("crashx:{}", vh::report::panic_key(&msg.chars().take(90).collect::<String>())),
+            format!("history {h}, crash at log index {} keeping {:?} tear {:?}: {msg}", c.point, c.kept, c.tear),
+            json!({"engine": "crashx", "history": h, "candidate": c, "recovery_candidate": c2}),
+        );
+    }
+    if st.images_judged == 0 {
+        rep.machinery_errors.push("no crash image was judged".into());
+    }
+    rep.finish()
+}
+
+fn check(prop: &str, tier: &str) -> i32 {
+    let quick = tier != "thorough";
+    match prop {
+        "C04" => run_seq(
+            prop,
+            tier,
+            "model_checking",
+            profiles::c04_profiles(quick),
+            "every sequence of table operations over the listed alphabets up to the depth bound, from every seed tree (empty, full leaf, 2- and 3-level, big value, sparse, clean and dirty pages); each returned value, the final scan, the committed dump, page accounting and the independent decoder are compared with a BTreeMap; distinct = distinct observation vectors",
+            &["the reference model is std BTreeMap ordered by the native key order", "sequences longer than the depth bound are not explored"],
+        ),
+        "C01" => run_crash(
+            prop,
+            tier,
+            profiles::c01_histories(quick),
+            crashx::Bounds {
+                full_subsets_upto: if quick { 8 } else { 12 },
+                page_tears_upto: if quick { 0 } else { 6 },
+                deviation_window: if quick { 6 } else { usize::MAX },
+                recovery_depth2: if quick { 1 } else { 2 },
+                post_checks: true,
+                max_images_per_history: if quick { 20_000 } else { 200_000 },
+            },
+            "every history over the transaction-level alphabet (length 1 full alphabet, length 2 core; thorough: length 2 full, length 3 core) from 3 (6) seed states; every backend write/set_len/sync after the start marker is a crash point; every subset of the unsynced operations (bounded by single-drop / keep-two deviations above the subset bound) with the newest write optionally torn (header: every cut at a differing byte, all 16 field subsets; pages: 8-byte cuts) ; every distinct image is recovered by the real code, and every crash point of that recovery is enumerated again; non-trivial = distinct images whose admissible window holds more than one commit point",
+            &[
+                "media model of docs/design.md: byte-atomic writes, fsync is a barrier, powersafe overwrite; writes since the last completed sync_data may be lost independently",
+                "at most one torn write per crash, and only the newest write is torn",
+                "page sizes 512 only; histories no longer than the stated bound",
+            ],
+        ),
+        _ => {
+            eprintln!("unknown property {prop}");
+            2
+        }
+    }
+}
+
 fn main() {
     par::install_panic_hook();
     let args: Vec<String> = std::env::args().collect();
     let code = match args.get(1).map(|s| s.as_str()) {
         Some("smoke") => smoke(),
+        Some("crash1") => {
+            let pat = args.get(2).cloned().unwrap_or_default();
+            let hs: Vec<_> = profiles::c01_histories(true).into_iter().filter(|h| h.name == pat).collect();
+            let b = crashx::Bounds { full_subsets_upto: 8, page_tears_upto: 0, deviation_window: 6, recovery_depth2: args.get(3).map(|s| s.parse().unwrap()).unwrap_or(0), post_checks: true, max_images_per_history: 100000 };
+            let st = crashx::run_histories(hs, b);
+            println!("{:?}", st.matched_cp_hist);
+            for f in st.failures.iter().take(3) { println!("FAIL {:?}", f); }
+            for f in st.record_failures.iter().take(3) { println!("RECFAIL {:?}", f); }
+            0
+        }
+        Some("check") => check(args.get(2).map(|s| s.as_str()).unwrap_or(""), args.get(3).map(|s| s.as_str()).unwrap_or("quick")),
         _ => {
-            eprintln!("usage: vh <command>");
+            eprintln!("usage: vh check <Cxx> <quick|thorough>");
             2
         }
     };
